@@ -4,7 +4,7 @@
 
   `Open` of an existing file
     1. reads the header (`newFile` → `readAllocatorState`): limit, end markers, free lists, then
-       `absorbOverflowArea` — model: `FileSt.openAt` (= `FileSt.reopen` with the limit and the data
+       `absorbOverflowArea` — model: `FileSt.openAt` (= `FileSt.reopenP`, the PRECISE absorb rule of Model/AbsorbP.lean, with the limit and the data
        end marker the header carries; for a header without limit the limit of the `Options` is
        used for this instance: `readAllocatorState` / `absorbOverflowArea` run under it. Without
        `FlagUpdMaxSize` that is all — IN MEMORY ONLY, no transaction, nothing persisted (`RKind.bound`);
@@ -12,9 +12,9 @@
        /repo 51d10a6: the sizes are compared with the value stored in the header));
     2. with `FlagUpdMaxSize` and a different size runs `growFile` (limit raised or removed) or
        `shrinkFile` (0 < new < old):
-         grow   = `initTxMaxSize` (header-only transaction: txid + 1, new limit), then the allocator's
-                  limit is set and `absorbOverflowArea` runs again under the new limit;
-         shrink = `initTxMaxSize`, the allocator's limit is set (NO absorb), and if the last free
+         grow   = `initTxMaxSize` (header-only transaction: txid + 1, new limit, data end marker as the precise
+                  absorb rule computes it under the new limit; header and allocator get both);
+         shrink = `initTxMaxSize` (the same), and if the last free
                   region of the data or of the meta area ends at the area's end marker and that end
                   marker lies beyond the new limit, `initTxReleaseRegions`: a second transaction
                   (allowed to fail) that runs the allocator part of a commit with `forceUpdate`.
@@ -22,6 +22,7 @@
     3. `reportOpen` recomputes the statistic from the (new) header.
 -/
 import TxVerif.Model.Engine
+import TxVerif.Model.AbsorbP
 namespace TxVerif
 
 /-- end of the last free region (`freelist.LastRegion().End()`; 0 for an empty list) -/
@@ -38,11 +39,16 @@ def canRelease (ar : Area) (maxPages : Nat) : Bool :=
     end marker `de0` (everything else the header and the free-list pages carry is what the
     committed in-memory state `f` has) -/
 def FileSt.openAt (f : FileSt) (max0 de0 : Nat) : FileSt :=
-  ({ f with alloc := { f.alloc with maxPages := max0, data := { f.alloc.data with endMarker := de0 } } } : FileSt).reopen
+  ({ f with alloc := { f.alloc with maxPages := max0, data := { f.alloc.data with endMarker := de0 } } } : FileSt).reopenP
 
-/-- `doGrowFile` after the header has been read: `initTxMaxSize`, new limit, `absorbOverflowArea` -/
-def FileSt.resizeGrow (f : FileSt) (n : Nat) : FileSt :=
-  { f with alloc := ({ f.alloc with maxPages := n } : Alloc).absorbOverflow, txid := f.txid + 1 }
+/-- `initTxMaxSize` (the header-only transaction of `growFile` AND `shrinkFile`) after the header has been read:
+    txid + 1, the new limit, and the data end marker the precise absorb rule computes under the NEW limit
+    (`dataEndWithOverflowArea(maxPages, …)`); both are written to the header and set in the allocator -/
+def FileSt.limitTx (f : FileSt) (n : Nat) : FileSt :=
+  ({ f with alloc := { f.alloc with maxPages := n }, txid := f.txid + 1 } : FileSt).absorbP
+
+/-- `doGrowFile` after the header has been read -/
+def FileSt.resizeGrow (f : FileSt) (n : Nat) : FileSt := f.limitTx n
 
 /-- result of `initTxReleaseRegions` -/
 inductive ReleaseRes | notRun | failed | done
@@ -60,21 +66,24 @@ def FileSt.releaseTx (f : FileSt) : FileSt × ReleaseRes :=
 /-- the outcome of `shrinkFile` when `initTxReleaseRegions` fails (out of memory, or an I/O error):
     the limit is set, the release is rolled back -/
 def FileSt.resizeShrinkFailed (f : FileSt) (n : Nat) : FileSt :=
-  let f1 : FileSt := { f with alloc := { f.alloc with maxPages := n }, txid := f.txid + 1 }
+  let f1 : FileSt := f.limitTx n
   { f1 with alloc := f1.alloc.rollback (f1.alloc.beginTx false 0) }
 
 /-- the statistic `reportOpen` computes from the header written by a successful release -/
 def FileSt.statOfMarkers (f : FileSt) : Nat :=
   max f.alloc.data.endMarker f.alloc.mta.endMarker - 2 - f.alloc.metaTotal - f.alloc.data.free.length
 
-/-- `shrinkFile` after the header has been read -/
-def FileSt.resizeShrink (f : FileSt) (n : Nat) : FileSt × ReleaseRes :=
-  let f1 : FileSt := { f with alloc := { f.alloc with maxPages := n }, txid := f.txid + 1 }
+/-- step 3 of `shrinkFile` on the state `f1` after `initTxMaxSize`: `initTxReleaseRegions` if one of the areas
+    can release regions -/
+def FileSt.releaseStep (f1 : FileSt) (n : Nat) : FileSt × ReleaseRes :=
   if canRelease f1.alloc.data n || canRelease f1.alloc.mta n then
     match f1.releaseTx with
     | (f2, .done) => ({ f2 with statData := f2.statOfMarkers }, .done)
     | r => r
   else (f1, .notRun)
+
+/-- `shrinkFile` after the header has been read -/
+def FileSt.resizeShrink (f : FileSt) (n : Nat) : FileSt × ReleaseRes := (f.limitTx n).releaseStep n
 
 /-- what `openWith` decides to do about the limit -/
 inductive RKind
@@ -101,10 +110,10 @@ def rkindPages (old n : Nat) : RKind :=
     marker `f.alloc.data.endMarker`, with the decision `k` and the new limit `n` (pages) -/
 def FileSt.resizeWith (f : FileSt) (k : RKind) (n : Nat) : FileSt × ReleaseRes :=
   match k with
-  | .same => (f.reopen, .notRun)
+  | .same => (f.reopenP, .notRun)
   | .bound => (f.openAt n f.alloc.data.endMarker, .notRun)
-  | .grow => (f.reopen.resizeGrow n, .notRun)
-  | .shrink => f.reopen.resizeShrink n
+  | .grow => (f.reopenP.resizeGrow n, .notRun)
+  | .shrink => f.reopenP.resizeShrink n
   | .boundShrink => (f.openAt n f.alloc.data.endMarker).resizeShrink n
 
 /-- `Open` with `FlagUpdMaxSize` and `MaxSize = n` pages -/
@@ -120,11 +129,14 @@ def hdrMaxAfter (old : Nat) (k : RKind) (n : Nat) : Nat :=
   | .shrink => n
   | .boundShrink => n
 
-/-- the data end marker the header carries afterwards: `initTxMaxSize` copies the old header, only a
-    successful `initTxReleaseRegions` writes the in-memory markers -/
-def hdrDataEndAfter (de0 : Nat) (r : FileSt × ReleaseRes) : Nat :=
-  match r.2 with
-  | .done => r.1.alloc.data.endMarker
-  | _ => de0
+/-- the data end marker the header carries afterwards (old value `de0`): `initTxMaxSize` stores the data end marker
+    it computed together with the limit, a committed `initTxReleaseRegions` writes the in-memory markers — in
+    every case the data end marker of the instance that performed the update (a failed release rolls back to
+    the state after `initTxMaxSize`); without an update transaction the header is unchanged -/
+def hdrDataEndAfter (de0 : Nat) (k : RKind) (r : FileSt × ReleaseRes) : Nat :=
+  match k with
+  | .same => de0
+  | .bound => de0
+  | _ => r.1.alloc.data.endMarker
 
 end TxVerif
